@@ -3,7 +3,24 @@ import random
 import nv
 
 
+HANGS = [0]
+
+
 def mp_case(prob, k, v, schedule_fn, mode, rng, die=None, timeouts=None):
+    """watchdog around `_mp_case` (the real worker methods run in this process): a call that does not return is a
+    non-termination witness; after three of them the remaining calls are skipped"""
+    skipped = {"counts": [], "yielded": [], "best": None, "raised": False, "k": k, "hang": "skipped after repeated hangs"}
+    if HANGS[0] >= 3:
+        return "hang", "split 0:0 0:0 1 0", skipped
+    try:
+        with nv.guard(20):
+            return _mp_case(prob, k, v, schedule_fn, mode, rng, die, timeouts)
+    except nv.Hang as e:
+        HANGS[0] += 1
+        return "hang", "split 0:0 0:0 1 0", dict(skipped, hang=str(e))
+
+
+def _mp_case(prob, k, v, schedule_fn, mode, rng, die=None, timeouts=None):
     """run the REAL MultiprocessingSolver parent on a scripted queue; returns (impl_line, model_request, info)"""
     import mpfake
     from nucs.solvers.multiprocessing_solver import MultiprocessingSolver
@@ -75,6 +92,8 @@ def run(ctx):
     import corr_engine as ce
     import mpfake
 
+    HANGS[0] = 0
+
     report = ctx["report"]
     rng = random.Random(ctx["seed"] + 1101)
     viol, corr, reqs = [], [], []
@@ -96,11 +115,19 @@ def run(ctx):
         def sched_all(counts):
             return counts
         impl0, req0, info0 = mp_case(prob, k, v, lambda c: [("M", i) for i in mpfake.interleavings(c, limit=1)[0]], mode, rng)
+        if impl0 == "hang":
+            if "skipped" not in str(info0.get("hang")):
+                viol.append({"problem": prob.to_json(), "k": k, "v": v, "mode": mode, "kind": "mp-hang", "detail": "the multiprocessing call did not return: " + str(info0.get("hang"))})
+            continue
         ils = mpfake.interleavings(info0["counts"], limit=per, rng=rng)
         report.count("workers", info0["k"])
         report.count("messages", sum(info0["counts"]))
         for il in ils:
             impl, req, info = mp_case(prob, k, v, lambda c, il=il: [("M", i) for i in il], mode, rng)
+            if impl == "hang":
+                if "skipped" not in str(info.get("hang")):
+                    viol.append({"problem": prob.to_json(), "k": k, "v": v, "mode": mode, "kind": "mp-hang", "detail": "the multiprocessing call did not return"})
+                break
             reqs.append((req, impl, {"problem": prob.to_json(), "k": k, "v": v, "mode": mode, "interleaving": il}))
             report.cov["evaluations"] += 1
             report.nontrivial(req)
@@ -135,6 +162,11 @@ def run(ctx):
                 v = rng.randrange(len(prob.idx))
                 impl, req, info = mp_case(prob, k, v, lambda c: [("M", i) for i in mpfake.interleavings(c, limit=1)[0]], (direction, ov), rng)
                 report.cov["evaluations"] += 1
+                if impl == "hang":
+                    if "skipped" not in str(info.get("hang")):
+                        viol.append({"problem": prob.to_json(), "k": k, "v": v, "mode": [direction, ov], "kind": "mp-hang",
+                                     "detail": f"distributed {direction}imisation of variable {ov} did not return: {info.get('hang')}"})
+                    continue
                 report.count("optimize_sweep", direction)
                 case = {"problem": prob.to_json(), "k": k, "v": v, "mode": [direction, ov]}
                 vals = [s_[ov] for s_ in exp]
